@@ -283,6 +283,16 @@ func init() {
 		if uerr != nil {
 			return map[string]any{"outcome": "unmarshal-error"}, nil
 		}
+		// the sequential reference is computed on a Resolved of its own, so that the shared one below is used for the very first
+		// time by the goroutines themselves (anything built lazily on first use is then built under contention)
+		uSeq, _, herr2 := buildUniverse(&a)
+		if herr2 != nil {
+			return nil, herr2
+		}
+		rsSeq, err := uSeq.root.Resolve(uSeq.opts)
+		if err != nil {
+			return map[string]any{"outcome": "resolve-error"}, nil
+		}
 		rs, err := u.root.Resolve(u.opts)
 		if err != nil {
 			return map[string]any{"outcome": "resolve-error"}, nil
@@ -301,14 +311,14 @@ func init() {
 		// sequential reference
 		seq := make([]string, len(insts))
 		for i, v := range insts {
-			seq[i] = safeValidate(rs, v)
+			seq[i] = safeValidate(rsSeq, v)
 		}
-		seqMarshal, _ := json.Marshal(u.root)
+		seqMarshal, _ := json.Marshal(uSeq.root)
 		seqDefaults := make([]string, len(insts))
 		for i := range insts {
 			var v any
 			json.Unmarshal(texts[i], &v)
-			applyOnce(rs, &v)
+			applyOnce(rsSeq, &v)
 			b, _ := json.Marshal(v)
 			seqDefaults[i] = string(b)
 		}
@@ -324,6 +334,7 @@ func init() {
 		var mu sync.Mutex
 		mismatches := 0
 		note := func() { mu.Lock(); mismatches++; mu.Unlock() }
+		start := make(chan struct{})
 		for g := 0; g < k; g++ {
 			wg.Add(1)
 			go func(g int) {
@@ -333,7 +344,20 @@ func init() {
 						note()
 					}
 				}()
+				<-start
 				for round := 0; round < m; round++ {
+					if g%2 == 1 && round == 0 {
+						// half of the goroutines begin with ApplyDefaults, the others with Validate
+						for i := range insts {
+							var v any
+							json.Unmarshal(texts[i], &v)
+							applyOnce(rs, &v)
+							b, _ := json.Marshal(v)
+							if string(b) != seqDefaults[i] {
+								note()
+							}
+						}
+					}
 					for i, v := range insts {
 						if safeValidate(rs, v) != seq[i] {
 							note()
@@ -368,7 +392,81 @@ func init() {
 				}
 			}(g)
 		}
+		close(start)
 		wg.Wait()
 		return map[string]any{"outcome": "resolved", "mismatches": mismatches, "calls": k * m * (2*len(insts) + 4)}, nil
+	})
+
+	// cold {text, insts}: meant to be the FIRST operation of a fresh process: k goroutines, released together, each make the
+	// process's first calls into the package (Unmarshal, Marshal, Resolve, Validate on a map and on a struct, For, Equal), so that
+	// every process-wide cache is filled under contention; all goroutines must obtain the same results.
+	register("cold", func(args json.RawMessage) (any, error) {
+		var a struct {
+			Text  string   `json:"text"`
+			Insts []string `json:"insts"`
+		}
+		if err := json.Unmarshal(args, &a); err != nil {
+			return nil, err
+		}
+		type S struct {
+			A string `json:"a"`
+			D []int  `json:"d,omitempty"`
+		}
+		const k = 8
+		outs := make([]string, k)
+		var wg sync.WaitGroup
+		start := make(chan struct{})
+		for g := 0; g < k; g++ {
+			wg.Add(1)
+			go func(g int) {
+				defer wg.Done()
+				defer func() {
+					if r := recover(); r != nil {
+						outs[g] = fmt.Sprintf("panic: %v", r)
+					}
+				}()
+				<-start
+				var sb bytes.Buffer
+				s := new(jsonschema.Schema)
+				if err := json.Unmarshal([]byte(a.Text), s); err != nil {
+					sb.WriteString("unmarshal-error;")
+					outs[g] = sb.String()
+					return
+				}
+				b, _ := json.Marshal(s)
+				sb.Write(b)
+				rs, err := s.Resolve(nil)
+				if err != nil {
+					sb.WriteString(";resolve-error")
+					outs[g] = sb.String()
+					return
+				}
+				for _, it := range a.Insts {
+					var v any
+					json.Unmarshal([]byte(it), &v)
+					sb.WriteString(";" + safeValidate(rs, v))
+					w := v
+					applyOnce(rs, &w)
+					wb, _ := json.Marshal(w)
+					sb.Write(wb)
+				}
+				sb.WriteString(";" + safeValidate(rs, S{A: "x1", D: []int{1, 2}}))
+				sb.WriteString(";" + safeValidate(rs, &S{A: "zz"}))
+				f, _ := jsonschema.For[S](nil)
+				fb, _ := json.Marshal(f)
+				sb.Write(fb)
+				sb.WriteString(fmt.Sprint(jsonschema.Equal(map[string]any{"a": 1}, map[string]any{"a": 1.0})))
+				outs[g] = sb.String()
+			}(g)
+		}
+		close(start)
+		wg.Wait()
+		diff := 0
+		for g := 1; g < k; g++ {
+			if outs[g] != outs[0] {
+				diff++
+			}
+		}
+		return map[string]any{"outcome": "ok", "mismatches": diff, "first": outs[0]}, nil
 	})
 }
